@@ -158,12 +158,21 @@ theorem go_null_only_if_final_partial_real (K : Keys) (L : Limits) (clock : Cloc
   that ply can have.  An ordinary null-move cut-off inside the mate band (`return value`) is
   harmless: `value` is the negated child result and ply-consistent by the child's range theorem.
 
-  The theorems about `realComp K` carry ONE run-level hypothesis: `nmpOut = false` at the end of the
-  run (the flag is monotone, so the event did not happen anywhere in it) — measured on every
-  search of the `searchx` correspondence suite (the driver prints the flag).  `GoSane` is not needed
-  (`WindowSize = 44`), nor a ghost `anomaly` / `fuelOut` hypothesis.  For the record with the guard
-  (`realCompG`) the flag provably stays down (`NmpFloor`, Proofs/SearchNmpFloor.lean) and the theorems
-  are hypothesis-free. -/
+  That event is only a NECESSARY condition for what actually endangers the table invariant: the value
+  handed out has to reach a table store (the parent's fail-low store of `maxim`) while it is still
+  beyond the ply-relative band.  Measured (suite `searchx`, script `nmpout-corpus`): `nmpOut` IS raised on
+  a real search, yet no value beyond `±max(Inf-MaxPlies, Inf-ply)` is ever stored and no raw table
+  value leaves `±Inf`, in the model or in the real engine.  So the theorems about `realComp K` carry the
+  EXACT run-level hypothesis instead: the ghost flag `St.ttOut` — raised at the five table-store sites
+  of the skeleton when the value stored at `ply` is not ply-consistent (`ttBad`) — is down at the end of
+  the run; the flag is monotone, so: NO OUT-OF-BAND VALUE WAS STORED IN THIS RUN.  It is measured on
+  every search of the `searchx` correspondence suite (the driver prints the flag; never raised).
+  `GoSane` is not needed (`WindowSize = 44`), nor a ghost `anomaly` / `fuelOut` hypothesis.  The former
+  statements under `nmpOut = false` are kept as COROLLARIES (`…_real_nmp`): `go_ttOut_of_nmpOut_real` proves
+  that `nmpOut = false` implies `ttOut = false`, so the hypothesis has become strictly weaker (the
+  converse fails: script `nmpout-corpus`).  For the record with the guard (`realCompG`) `nmpOut` provably
+  stays down (`NmpFloor`, Proofs/SearchNmpFloor.lean), hence no out-of-band value is ever stored
+  (`go_ttOut_guarded`) and the theorems are hypothesis-free. -/
 
 /-- the table invariant of the real components: `PSok` and every raw table value within `±Inf`. -/
 theorem ttokReal_new (buckets : Nat) : TTokReal (newEngine buckets).ps := SearchReal.ttokReal_new buckets
@@ -189,14 +198,40 @@ theorem go_nmpOut_guarded (K : Keys) (L : Limits) (clock : Clock) (fuel : Nat) (
   go_nmpOut_false _ (nmpFloor_realCompG K _) L clock fuel e b nodes0
 
 /-- every `go` keeps the table invariant — completed, stopped, out of budget, out of fuel — as long
-    as the ghost flag is down at the end (the content of repair D8, now with the table's own re-basing
-    of mate scores). -/
+    as no out-of-band value was handed to a table store in it (`ttOut = false` at the end; the content
+    of repair D8, now with the table's own re-basing of mate scores). -/
 theorem go_keeps_table_invariant_real (K : Keys) (L : Limits) (clock : Clock) (fuel : Nat) (e : Engine PS) (b : Board)
+    (hv : Board.valid b = true) (nodes0 : Int) (hd : 1 ≤ L.depth) (htt : TTokReal e.ps)
+    (hA : (go (realComp K) L clock fuel e b nodes0).st.ttOut = false) :
+    TTokReal (go (realComp K) L clock fuel e b nodes0).engine.ps :=
+  Props.C06.go_keeps_table_invariant_free_tt (realComp K) L clock (realComp_laws K) (real_scoreLaws_with K _)
+    (real_aspLaws_with K _) fuel e b hv nodes0 hd htt hA
+
+/-- **the new hypothesis is implied by the former one**: a run (from sound tables) in which the null-move
+    mate branch is never taken with a `beta` below `-Inf + ply` stores no out-of-band value.  The converse
+    fails on the real engine (suite `searchx`, script `nmpout-corpus`: `nmpOut` raised, `ttOut` not). -/
+theorem go_ttOut_of_nmpOut_real (K : Keys) (L : Limits) (clock : Clock) (fuel : Nat) (e : Engine PS) (b : Board)
+    (hv : Board.valid b = true) (nodes0 : Int) (hd : 1 ≤ L.depth) (htt : TTokReal e.ps)
+    (hA : (go (realComp K) L clock fuel e b nodes0).st.nmpOut = false) :
+    (go (realComp K) L clock fuel e b nodes0).st.ttOut = false :=
+  Props.C06.go_ttOut_of_nmpOut_free (realComp K) L clock (realComp_laws K) (real_scoreLaws_with K _)
+    (real_aspLaws_with K _) fuel e b hv nodes0 hd htt hA
+
+/-- with the null-move guard no out-of-band value is ever stored. -/
+theorem go_ttOut_guarded (K : Keys) (L : Limits) (clock : Clock) (fuel : Nat) (e : Engine PS) (b : Board)
+    (hv : Board.valid b = true) (nodes0 : Int) (hd : 1 ≤ L.depth) (htt : TTokReal e.ps) :
+    (go (realCompG K Eval.shipped) L clock fuel e b nodes0).st.ttOut = false :=
+  Props.C06.go_ttOut_of_nmpOut_free (realCompG K Eval.shipped) L clock (realCompG_laws K _) (real_scoreLaws K _)
+    (real_aspLaws K _) fuel e b hv nodes0 hd htt (go_nmpOut_guarded K L clock fuel e b nodes0)
+
+/-- the former statement — under `nmpOut = false` (the null-move mate branch was never taken with a `beta`
+    below `-Inf + ply`) — is a corollary. -/
+theorem go_keeps_table_invariant_real_nmp (K : Keys) (L : Limits) (clock : Clock) (fuel : Nat) (e : Engine PS) (b : Board)
     (hv : Board.valid b = true) (nodes0 : Int) (hd : 1 ≤ L.depth) (htt : TTokReal e.ps)
     (hA : (go (realComp K) L clock fuel e b nodes0).st.nmpOut = false) :
     TTokReal (go (realComp K) L clock fuel e b nodes0).engine.ps :=
-  Props.C06.go_keeps_table_invariant_free (realComp K) L clock (realComp_laws K) (real_scoreLaws_with K _)
-    (real_aspLaws_with K _) fuel e b hv nodes0 hd htt hA
+  go_keeps_table_invariant_real K L clock fuel e b hv nodes0 hd htt
+    (go_ttOut_of_nmpOut_real K L clock fuel e b hv nodes0 hd htt hA)
 
 theorem go_keeps_table_invariant_guarded (K : Keys) (L : Limits) (clock : Clock) (fuel : Nat) (e : Engine PS) (b : Board)
     (hv : Board.valid b = true) (nodes0 : Int) (hd : 1 ≤ L.depth) (htt : TTokReal e.ps) :
@@ -204,13 +239,14 @@ theorem go_keeps_table_invariant_guarded (K : Keys) (L : Limits) (clock : Clock)
   Props.C06.go_keeps_table_invariant_free (realCompG K Eval.shipped) L clock (realCompG_laws K _) (real_scoreLaws K _)
     (real_aspLaws K _) fuel e b hv nodes0 hd htt (go_nmpOut_guarded K L clock fuel e b nodes0)
 
-/-- the engine states of a session in which no search raised the flag. -/
+/-- the engine states of a session in which no search handed an out-of-band value to a table store
+    (no search raised `ttOut`). -/
 inductive SessionS (K : Keys) : Engine PS → Prop where
   | new (buckets : Nat) : SessionS K (newEngine buckets)
   | clear {e} : SessionS K e → SessionS K (clearEngine e)
   | go {e} (L : Limits) (clock : Clock) (fuel : Nat) (b : Board) (nodes0 : Int) :
       SessionS K e → Board.valid b = true → 1 ≤ L.depth →
-      (go (realComp K) L clock fuel e b nodes0).st.nmpOut = false →
+      (go (realComp K) L clock fuel e b nodes0).st.ttOut = false →
       SessionS K (go (realComp K) L clock fuel e b nodes0).engine
 
 theorem sessionS_ok {K : Keys} {e : Engine PS} (h : SessionS K e) : TTokReal e.ps := by
@@ -228,15 +264,25 @@ theorem sessionS_session {K : Keys} {e : Engine PS} (h : SessionS K e) : Session
 /-- **The null move is returned only if the root is final** (rule-book reading) — every key table,
     valid root, depth limit ≥ 1, limit combination, clock, fuel, abort point and admissible engine
     state; no `anomaly` / `fuelOut` / `GoSane` hypothesis.  The one run-level hypothesis: the flag
-    `nmpOut` is down at the end of the run. -/
+    `ttOut` is down at the end of the run — no value beyond `±max(Inf-MaxPlies, Inf-ply)` was handed to a
+    table store at any `ply` in it. -/
 theorem go_null_only_if_final_real (K : Keys) (L : Limits) (clock : Clock) (fuel : Nat) (e : Engine PS) (b : Board)
+    (hv : Board.valid b = true) (nodes0 : Int) (hd : 1 ≤ L.depth) (htt : TTokReal e.ps)
+    (hA : (go (realComp K) L clock fuel e b nodes0).st.ttOut = false)
+    (hnull : (go (realComp K) L clock fuel e b nodes0).move = 0) :
+    Rules.legalMoves (Board.abs b) = [] ∨ b.fifty ≥ 100 ∨ b.threefold ≥ 3 :=
+  (final_iff_rules K hv).1
+    (Props.C06.go_null_only_if_final_free_tt (realComp K) L clock (realComp_laws K) (real_scoreLaws_with K _)
+      (real_aspLaws_with K _) fuel e b hv nodes0 hd htt hA hnull)
+
+/-- the former statement (under `nmpOut = false`), a corollary. -/
+theorem go_null_only_if_final_real_nmp (K : Keys) (L : Limits) (clock : Clock) (fuel : Nat) (e : Engine PS) (b : Board)
     (hv : Board.valid b = true) (nodes0 : Int) (hd : 1 ≤ L.depth) (htt : TTokReal e.ps)
     (hA : (go (realComp K) L clock fuel e b nodes0).st.nmpOut = false)
     (hnull : (go (realComp K) L clock fuel e b nodes0).move = 0) :
     Rules.legalMoves (Board.abs b) = [] ∨ b.fifty ≥ 100 ∨ b.threefold ≥ 3 :=
-  (final_iff_rules K hv).1
-    (Props.C06.go_null_only_if_final_free (realComp K) L clock (realComp_laws K) (real_scoreLaws_with K _)
-      (real_aspLaws_with K _) fuel e b hv nodes0 hd htt hA hnull)
+  go_null_only_if_final_real K L clock fuel e b hv nodes0 hd htt
+    (go_ttOut_of_nmpOut_real K L clock fuel e b hv nodes0 hd htt hA) hnull
 
 /-- … for the engine with the null-move guard there is no hypothesis on the run at all. -/
 theorem go_null_only_if_final_guarded (K : Keys) (L : Limits) (clock : Clock) (fuel : Nat) (e : Engine PS) (b : Board)
@@ -251,20 +297,33 @@ theorem go_null_only_if_final_guarded (K : Keys) (L : Limits) (clock : Clock) (f
     mated score `-Inf` for a checkmated root (hypothesis as above). -/
 theorem go_final_score_real (K : Keys) (L : Limits) (clock : Clock) (fuel : Nat) (e : Engine PS) (b : Board)
     (hv : Board.valid b = true) (nodes0 : Int) (hd : 1 ≤ L.depth) (htt : TTokReal e.ps)
-    (hA : (go (realComp K) L clock fuel e b nodes0).st.nmpOut = false)
+    (hA : (go (realComp K) L clock fuel e b nodes0).st.ttOut = false)
     (hfin : Rules.legalMoves (Board.abs b) = [] ∨ b.fifty ≥ 100 ∨ b.threefold ≥ 3)
     (hdone : (go (realComp K) L clock fuel e b nodes0).st.aborted = false) :
     (go (realComp K) L clock fuel e b nodes0).move = 0 ∧
       ((go (realComp K) L clock fuel e b nodes0).score = 0 ∨
         (b.inCheck b.stm = true ∧ Rules.legalMoves (Board.abs b) = [] ∧
           (go (realComp K) L clock fuel e b nodes0).score = -Inf)) := by
-  have h := Props.C06.go_final_score_free (realComp K) L clock (realComp_laws K) (real_scoreLaws_with K _)
+  have h := Props.C06.go_final_score_free_tt (realComp K) L clock (realComp_laws K) (real_scoreLaws_with K _)
     (real_aspLaws_with K _) fuel e b hv nodes0 hd htt hA ((final_iff_rules K hv).2 hfin) hdone
   refine ⟨h.1, h.2.imp id (fun ⟨h1, h2, h3⟩ => ⟨h1, ?_, h3⟩)⟩
   have hlen := Props.C01.playable_length K hv
   have h2' : MoveGen.playable K b = [] := h2
   rw [h2'] at hlen
   exact List.length_eq_zero_iff.1 hlen.symm
+
+/-- the former statement (under `nmpOut = false`), a corollary. -/
+theorem go_final_score_real_nmp (K : Keys) (L : Limits) (clock : Clock) (fuel : Nat) (e : Engine PS) (b : Board)
+    (hv : Board.valid b = true) (nodes0 : Int) (hd : 1 ≤ L.depth) (htt : TTokReal e.ps)
+    (hA : (go (realComp K) L clock fuel e b nodes0).st.nmpOut = false)
+    (hfin : Rules.legalMoves (Board.abs b) = [] ∨ b.fifty ≥ 100 ∨ b.threefold ≥ 3)
+    (hdone : (go (realComp K) L clock fuel e b nodes0).st.aborted = false) :
+    (go (realComp K) L clock fuel e b nodes0).move = 0 ∧
+      ((go (realComp K) L clock fuel e b nodes0).score = 0 ∨
+        (b.inCheck b.stm = true ∧ Rules.legalMoves (Board.abs b) = [] ∧
+          (go (realComp K) L clock fuel e b nodes0).score = -Inf)) :=
+  go_final_score_real K L clock fuel e b hv nodes0 hd htt
+    (go_ttOut_of_nmpOut_real K L clock fuel e b hv nodes0 hd htt hA) hfin hdone
 
 /-- … for the engine with the null-move guard: no hypothesis on the run. -/
 theorem go_final_score_guarded (K : Keys) (L : Limits) (clock : Clock) (fuel : Nat) (e : Engine PS) (b : Board)
@@ -290,8 +349,11 @@ theorem nmpSane_flag {K : Keys} {L : Limits} {clock : Clock} {fuel : Nat} {e : E
   rw [h]; exact go_nmpOut_guarded K L clock fuel e b nodes0
 
 /-- non-vacuity of the score part: a fresh engine satisfies the table invariant, the start position is
-    a valid root, and the flag is down for a run without fuel. -/
+    a valid root, and both flags are down for a run without fuel (for runs WITH fuel the flags are
+    measured: suite `searchx` prints them for every compared search). -/
 example (n : Nat) : TTokReal (newEngine n).ps := ttokReal_new n
+example (K : Keys) (L : Limits) (clock : Clock) (e : Engine PS) (b : Board) :
+    (go (realComp K) L clock 0 e b).st.ttOut = false := go_ttOut_nofuel _ _ _ _ _ _
 example (K : Keys) (L : Limits) (clock : Clock) (e : Engine PS) (b : Board) :
     (go (realComp K) L clock 0 e b).st.nmpOut = false := by
   have h : ∀ (c : Comp PS Pick) (v : IDVars) (s : St PS), s.nmpOut = false →
@@ -327,6 +389,12 @@ example (K : Keys) (L : Limits) (clock : Clock) (fuel : Nat) :
     (C01 `legal_playable`, any key table), e.g. the en-passant capture and the castling move of `rich`. -/
 example (K : Keys) : Move.mk 36 43 0 ∈ MoveGen.playable K rich :=
   (Props.C01.playable_eq_legal K rich_valid _).2 ⟨by decide, Props.C01.rich_ep_legal, by decide⟩
+
+/-- `SessionS` (no search of the session stored an out-of-band value) is inhabited beyond `new`, and its
+    states satisfy the table invariant the score theorems ask for. -/
+example (K : Keys) (L : Limits) (clock : Clock) (hd : 1 ≤ L.depth) :
+    TTokReal (go (realComp K) L clock 0 (newEngine 1024) start).engine.ps :=
+  sessionS_ok (SessionS.go L clock 0 start 0 (SessionS.new 1024) start_valid hd (go_ttOut_nofuel _ _ _ _ _ _))
 
 /-- a word with bit 15 set is NOT an admissible table content, and an out-of-range history cell is
     not an admissible ranker state: the invariant is a genuine restriction. -/
